@@ -406,11 +406,11 @@ def group_form_integrals(form, domains, do_append_everywhere_integrals=True):
                     stripped_integrals_and_coordderivs = strip_coordinate_derivatives(ss_integrals)
 
                     # now group the integrals by the coordinate derivative
+                    # NB: the key is the stack of derivatives itself, not a sum of
+                    # operand hashes: stacks that exchange operands between their
+                    # levels (or collide otherwise) must not be merged
                     def calc_hash(cd):
-                        return sum(
-                            sum(tuple_elem._ufl_compute_hash_() for tuple_elem in tuple_)
-                            for tuple_ in cd
-                        )
+                        return tuple(tuple(tuple_) for tuple_ in cd)
 
                     coordderiv_integrals_dict = {}
                     for integral, coordderiv in stripped_integrals_and_coordderivs:
